@@ -82,6 +82,13 @@ type Msg struct {
 	Step     int
 }
 
+// Recv is a delivered payload.
+type Recv struct {
+	Payload any
+	Step    int
+	From    int
+}
+
 // SignRec is one signature produced through the tap.
 type SignRec struct {
 	Stack int
@@ -117,7 +124,7 @@ type Stack struct {
 	ViewChanges []hotstuff.ViewChangeEvent
 	Execs       []*clientpb.Batch
 	Aborts      []*clientpb.Batch
-	Received    []any // payloads delivered to this stack
+	Received    []Recv // payloads delivered to this stack
 	proposals   int
 }
 
@@ -134,6 +141,7 @@ type Cluster struct {
 	Part    []int // partition of each stack
 	StepNo  int
 	Signs   []SignRec
+	ActorSigns map[string]map[hotstuff.ID]bool // message bytes -> actor ids that signed them
 	Blocks  map[string]*hotstuff.Block // registry of block bytes -> block (for classifying signatures)
 	AllBlk  []*hotstuff.Block          // all blocks ever proposed by anyone, in first-appearance order
 	Actor   *Actor
@@ -190,7 +198,7 @@ func New(cfg Config) (*Cluster, error) {
 	if cfg.Batch < 1 {
 		cfg.Batch = 1
 	}
-	cl := &Cluster{Cfg: cfg, ByID: map[hotstuff.ID][]*Stack{}, Blocks: map[string]*hotstuff.Block{}, Faults: map[string]int{}, keys: map[hotstuff.ID]hotstuff.PrivateKey{}}
+	cl := &Cluster{Cfg: cfg, ByID: map[hotstuff.ID][]*Stack{}, Blocks: map[string]*hotstuff.Block{}, Faults: map[string]int{}, keys: map[hotstuff.ID]hotstuff.PrivateKey{}, ActorSigns: map[string]map[hotstuff.ID]bool{}}
 	scheme := cfg.Crypto
 	if scheme == "fast" {
 		scheme = "" // keys are not needed
@@ -576,7 +584,7 @@ func (cl *Cluster) Deliver(m Msg) {
 		return
 	}
 	cl.topUp()
-	to.Received = append(to.Received, m.Payload)
+	to.Received = append(to.Received, Recv{Payload: m.Payload, Step: cl.StepNo, From: m.From})
 	to.EL.AddEvent(m.Payload)
 	cl.drain(to)
 }
